@@ -115,7 +115,8 @@ def run_impl(scen, timeout=900):
         fin = [int(x) for x in parts[1][1:].split()]
         pan = [int(x) for x in parts[2][1:].split()]
         st = [int(x) for x in parts[3][1:].split()]
-        res.append({'trace': trace, 'finished': fin, 'panicked': pan, 'stuck': bool(st[0]), 'drain': st[1]})
+        al = [int(x) for x in parts[4][1:].split()] if len(parts) > 4 else [0, 0]
+        res.append({'trace': trace, 'finished': fin, 'panicked': pan, 'stuck': bool(st[0]), 'drain': st[1], 'allocs': al[0], 'frees': al[1]})
     return res
 
 
@@ -212,6 +213,8 @@ def mon_c03(s, r, bound_extra=0):
     for a, c in count.items():
         if c > 10 + nact.get(a, 0) + bound_extra:
             viol.append(('handler-steps', -1, 'delivery A%d took %d steps with %d actions' % (a, c, nact.get(a, 0))))
+    if r.get('allocs', 0) or r.get('frees', 0):
+        viol.append(('handler-heap', -1, 'heap traffic inside a delivery: %d allocations, %d releases' % (r.get('allocs', 0), r.get('frees', 0))))
     for a, k in enumerate(kinds):
         if k == 1 and a < len(r['finished']) and not r['finished'][a]:
             viol.append(('handler-unfinished', -1, 'delivery A%d did not finish' % a))
